@@ -46,6 +46,20 @@ func (k *gosymGatedKeep) releaseSome(tag string) {
 	}
 }
 
+// The filesystem allows 4 block writes in flight and makes the foreground wait for one of them to finish before it
+// starts a fifth (back-pressure, not a deadlock).  The harness owns the gate, so it must not sit on more writes than
+// that while it issues the next operation: above `max` pending writes it lets solver-chosen ones finish.
+func (k *gosymGatedKeep) drainTo(max int, tag string) {
+	for round := 0; len(k.pending) > max; round++ {
+		id := tag + ".d" + string(rune('0'+round))
+		i := gosym_Choice("which."+id, len(k.pending))
+		pe := k.pending[i]
+		k.pending = append(k.pending[:i:i], k.pending[i+1:]...)
+		pe.rel <- !gosym_Fork("fails." + id)
+		gosym_Quiesce()
+	}
+}
+
 func (k *gosymGatedKeep) releaseAll() {
 	for len(k.pending) > 0 {
 		pe := k.pending[0]
@@ -73,6 +87,7 @@ func GosymH_C13_async() {
 	nops := gosym_Param("ops", 2)
 	for op := 0; op < nops; op++ {
 		tag := string(rune('0' + op))
+		kc.drainTo(2, "before-op"+tag)
 		if op == 0 || gosym_Fork("write"+tag) {
 			off := gosym_Choice("off"+tag, 3)
 			ln := 1 + gosym_Choice("len"+tag, 3)
